@@ -576,6 +576,11 @@ class SpecEvalMixin:
                 hk = self.reg.specfns.get("hasattr_class_attr:" + attr)
                 if hk is not None:
                     return hk(self, st, v).t
+                m = self.reg.models.get(v.cls)
+                if m is not None and getattr(m, "open_attrs", False):
+                    self.decls.fun("gen_hasattr", [INT, STR], BOOL)
+                    from .smt import app as _app
+                    return _app("gen_hasattr", BOOL, v.t, self.decls.str_lit(attr))
                 raise Unsupported(f"hasattr({v.cls}, {attr!r}): attribute not in model")
             if not d[2]:
                 return TRUE
